@@ -151,6 +151,8 @@ def literal_cases():
 
 
 def run(rep, tier):
+    from .. import scale
+    scale.run(rep, PROP, tier)          # size ladders (seedverif/scale.py): the entries that concern this property
     rng = core.rng_for(PROP)
     descs = []
     cells = 0
